@@ -203,6 +203,8 @@ def worker_main(argv: list[str]) -> int:
             k += W
             continue
         jobs += 1
+        if os.environ.get("VERIF_EMIT_DIGESTS"):
+            out.write(json.dumps({"t": "dig", "k": k, "d": res.get("digest")}) + "\n")
         merge_stats(acc, res.get("stats", {}))
         for v in res.get("violations", []):
             if viol_lines < max_viol_lines:
